@@ -32,8 +32,8 @@ def generate(seed, stratum, tier):
     ops = []
     n_ao = 0
     for _ in range(common.span(rng, 2, 12, common.deep(rng), 3)):
-      k = rng.choices(['start', 'stop', 'is_alive', 'clear', 'ao_start', 'ao_wake', 'subscribe', 'publish'],
-                      weights=[5, 4, 3, 1, 2, 2, 1, 1])[0]
+      k = rng.choices(['start', 'stop', 'is_alive', 'clear', 'ao_start', 'ao_wake', 'subscribe', 'publish', 'ao_print'],
+                      weights=[5, 4, 3, 1, 2, 2, 1, 1, 1.5])[0]
       if k == 'ao_start':
         if n_ao >= 2:
           continue
@@ -42,6 +42,10 @@ def generate(seed, stratum, tier):
       elif k == 'ao_wake':
         if n_ao:
           ops.append(['ao_wake', rng.randrange(n_ao)])
+      elif k == 'ao_print':
+        if n_ao:
+          for _ in range(rng.randrange(1, 4)):
+            ops.append(['ao_print', rng.randrange(n_ao)])
       elif k == 'subscribe':
         ops.append(['subscribe', 0, 'SA', 'fifo', 'event'])
       elif k == 'publish':
